@@ -381,11 +381,11 @@ ROPS = {
     "angle_with_outer": ("qqo", lambda a, b: a.angle_with_outer(b)),
 }
 VOPS = {
-    "vdot": ("vv", lambda u, v: u.dot(v)), "vcross": ("vv", lambda u, v: u.cross(v)),
-    "vangle_with": ("vv", lambda u, v: u.angle_with(v)), "vunit": ("v", lambda u: u.unit),
-    "vnorm": ("v", lambda u: u.norm), "vdot_outer": ("vvo", lambda u, v: u.dot_outer(v)),
-    "vdot_outer_lazy": ("vvo", lambda u, v: u.dot_outer(v, lazy=True, chunk_size=2, progressbar=False)),
-    "vazimuth": ("v", lambda u: u.azimuth), "vpolar": ("v", lambda u: u.polar),
+    "v.dot": ("vv", lambda u, v: u.dot(v)), "v.cross": ("vv", lambda u, v: u.cross(v)),
+    "v.angle_with": ("vv", lambda u, v: u.angle_with(v)), "v.unit": ("v", lambda u: u.unit),
+    "v.norm": ("v", lambda u: u.norm), "v.dot_outer": ("vvo", lambda u, v: u.dot_outer(v)),
+    "v.dot_outer_lazy": ("vvo", lambda u, v: u.dot_outer(v, lazy=True, chunk_size=2, progressbar=False)),
+    "v.azimuth": ("v", lambda u: u.azimuth), "v.polar": ("v", lambda u: u.polar),
 }
 FROM = {
     "from_euler": (3, lambda c, d: c.from_euler(d)),
@@ -464,7 +464,9 @@ if want("strategy"):
         names = sorted({k[0] for k in res})
         for name in names:
             ref = res.get((name, True, True))
-            rep = {"cls": cls.__name__, "op": name, "dtype": dkind, "sa": sa, "sb": sb, "A": dA.tolist(),
+            cname = "Vector3d" if name in VOPS else cls.__name__
+            oname = name[2:] if name in VOPS else name
+            rep = {"cls": cname, "op": name, "dtype": dkind, "sa": sa, "sb": sb, "A": dA.tolist(),
                    "B": dB.tolist(), "B2": dB2.tolist(), "V": dV.tolist(), "V2": dV2.tolist()}
 
             def dev(x, y):
@@ -482,7 +484,7 @@ if want("strategy"):
             if (name, False, True) in res:
                 dv = dev(res[(name, False, True)], ref)
                 if dv:
-                    fail(f"backend:{cls.__name__}.{name}:{dv}", f"{cls.__name__}.{name} differs between "
+                    fail(f"backend:{cname}.{oname}:{dv}", f"{cname}.{oname} differs between "
                          f"numpy-quaternion and the built-in kernels on float64 inputs ({dv})", rep)
             # dtype, per backend
             for backend in (True, False):
@@ -492,8 +494,8 @@ if want("strategy"):
                         what = {"raises": "raises (or stops raising)", "f32-rounding": "differs at float32 rounding level from",
                                 "mismatch": "differs grossly from"}[dv]
                         r2 = res[(name, backend, False)]
-                        fail(f"dtype:{cls.__name__}.{name}:{dkind}:{'npq' if backend else 'builtin'}:{dv}",
-                             f"{cls.__name__}.{name} on {dkind} input {what} the same values given as float64 "
+                        fail(f"dtype:{cname}.{oname}:{dkind}:{'npq' if backend else 'builtin'}:{dv}",
+                             f"{cname}.{oname} on {dkind} input {what} the same values given as float64 "
                              f"(backend {'numpy-quaternion' if backend else 'built-in'})"
                              + (f": {r2}" if isinstance(r2, str) else ""), rep)
 
